@@ -3,7 +3,7 @@ sys.path.insert(0, os.path.dirname(os.path.abspath(__file__)))
 from C01 import build, JOBS, OUTSIDE
 # quick tier: the C01 quick histories that reach every structural case of the tree (split, merge, shift, root growth and collapse, emptying,
 # duplicate run across leaves, copy / assign / clear / bulk_load); the remaining C01 histories run with verify() in the thorough tier
-QUICK = re.compile(r'^(set_l4i4_lin_p1_g0_k1_o[012]|set_l4i4_lin_p2_g0_k1_o[12]|multiset_l4i4_lin_p7_g0_k1_o0|set_l4i4_lin_p8_g0_k1_o[0123]|set_l4i4_lin_p9_g0_k1_o2|map_l4i4_lin_p1_g1_k1_o[013]|map_l4i4_lin_p1_g1_k1_o4_b5)$')
+QUICK = re.compile(r'^(set_l4i4_lin_p1_g0_k1_o[012]|set_l4i4_lin_p2_g0_k1_o[12]|multiset_l4i4_lin_p7_g0_k1_o0|set_l4i4_lin_p8_g0_k1_o[0123]|map_l4i4_lin_p1_g1_k1_o[013]|map_l4i4_lin_p1_g1_k1_o4_b5)$')
 def queries():
     qs = build('C02')
     for q in qs:
